@@ -709,7 +709,7 @@ def collapse_rule(ck, fb):
     every entity it CREATES follow from the entity it replaces; an entity that existed before keeps its own values"""
     from .canon import Canon, split_eq
     import re
-    ck.rule("C03.collapse", "collapse_edge transfers property values (swap_/copy_property_elements(old, new)) to the halfedges, halffaces and cells it creates (new = result of add_halfedge / add_halfface / add_cell); for halfedges and halffaces - where add_* may return an entity that existed before and survives - the transfer happens only under a comparison of the new entity's index with a count taken from the mesh (created here), and it is a copy: a swap undoes itself when two rebuilt cells share the entity")
+    ck.rule("C03.collapse", "collapse_edge transfers property values (swap_/copy_property_elements(old, new)) to everything it creates: for a created edge the halfedge of the rebuilt cell, its opposite and the edge; for a created face the halfface, its opposite and the face; the rebuilt cell; for halfedges and halffaces - where add_* may return an entity that existed before and survives - the transfer happens only under a comparison of the new entity's index with a count taken from the mesh (created here), and it is a copy: a swap undoes itself when two rebuilt cells share the entity")
     fs = [f for f in fb.by_cls.get("OpenVolumeMesh::TetrahedralMeshTopologyKernel", []) if f.name == "collapse_edge" and f.has_cfg]
     if len(fs) != 1:
         raise AnalysisBroken("anchor vanished: TetrahedralMeshTopologyKernel::collapse_edge (%d)" % len(fs))
@@ -723,13 +723,37 @@ def collapse_rule(ck, fb):
         a = f.resolve(x["a"])
         t = (unwrap(a[1]).get("t") or unwrap(a[1]).get("rt") or "").replace("const ", "").split("::")[-1]
         seen.setdefault(t, []).append((cn.s(x["a"][1]), nm, b, x))
-    for kind, creator, count in (("HEH", "add_halfedge(", "n_edges()"), ("HFH", "add_halfface(", "n_faces()"), ("CH", "add_cell(", None)):
-        hits = [h for h in seen.get(kind, []) if h[0].startswith(creator) or creator in h[0]]
+    WANT = (("HEH", "add_halfedge(", "n_edges()", "the halfedge that occurs in the rebuilt cell"),
+            ("HEH", "opposite_halfedge_handle(add_halfedge(", "n_edges()", "the other side of a created edge"),
+            ("EH", "edge_handle(add_halfedge(", "n_edges()", "the created edge itself"),
+            ("HFH", "add_halfface(", "n_faces()", "the halfface that occurs in the rebuilt cell"),
+            ("HFH", "opposite_halfface_handle(add_halfface(", "n_faces()", "the other side of a created face (a boundary halfface)"),
+            ("FH", "face_handle(add_halfface(", "n_faces()", "the created face itself"),
+            ("CH", "add_cell(", None, "the rebuilt cell"))
+    for kind, creator, count, role in WANT:
+        if creator.startswith("opposite_") or creator.startswith("edge_handle(") or creator.startswith("face_handle("):
+            hits = [h for h in seen.get(kind, []) if h[0].startswith(creator) or (creator.split("(")[0] + "(") in h[0] and creator.split("(", 1)[1] in h[0] and re.search(r"(edge_handle|face_handle|opposite_half(edge|face)_handle)\(", h[0]) and h[0].split("(")[0].split(".")[-1] == creator.split("(")[0]]
+        else:
+            hits = [h for h in seen.get(kind, []) if h[0].startswith(creator)]
         ok = bool(hits)
-        (ck.ok if ok else lambda r, w, t: ck.violate(r, w, t, "C03.collapse:%s" % kind))("C03.collapse", f.where, "collapse_edge: a property transfer (old, %s...)) carries the %s properties over (found %s)" % (creator, kind, [v[0][:40] for v in seen.get(kind, [])] or "no such call"))
+        (ck.ok if ok else lambda r, w, t: ck.violate(r, w, t, "C03.collapse:%s:%s" % (kind, creator.split("(")[0])))("C03.collapse", f.where, "collapse_edge: a property transfer (old, %s...)) carries the %s values of %s over (found %s)" % (creator, kind, role, [v[0][:40] for v in seen.get(kind, [])] or "no such call"))
         if count is None:
             continue
+        def core_of(t_):
+            k_ = t_.find("add_half")
+            if k_ < 0:
+                return t_
+            d_ = 0
+            for q_ in range(k_, len(t_)):
+                if t_[q_] == "(":
+                    d_ += 1
+                elif t_[q_] == ")":
+                    d_ -= 1
+                    if d_ == 0:
+                        return t_[k_:q_ + 1]
+            return t_[k_:]
         for new, nm, b, x in hits:
+            new = core_of(new)
             guarded = False
             for s_, p_, c_ in cn.facts(b):
                 m = re.fullmatch(r"\((.+) (>=|>|<|<=) (.+)\)", s_)
@@ -742,8 +766,8 @@ def collapse_rule(ck, fb):
                     newer = (op in (">=", ">") and new in l_) or (op in ("<", "<=") and new in r_)
                     if newer == bool(p_):
                         guarded = True
-            (ck.ok if guarded else lambda r, w, t: ck.violate(r, w, t, "C03.collapse:%s:created" % kind))("C03.collapse", f.loc(x), "collapse_edge: %s values are transferred only to an entity created by this call (index compared with %s)" % (kind, count))
-            (ck.ok if nm == "copy_property_elements" else lambda r, w, t: ck.violate(r, w, t, "C03.collapse:%s:copy" % kind))("C03.collapse", f.loc(x), "collapse_edge: the %s transfer is a copy (found %s)" % (kind, nm))
+            (ck.ok if guarded else lambda r, w, t: ck.violate(r, w, t, "C03.collapse:%s:%s:created" % (kind, creator.split("(")[0])))("C03.collapse", f.loc(x), "collapse_edge: %s values are transferred only to an entity created by this call (index compared with %s)" % (kind, count))
+            (ck.ok if nm == "copy_property_elements" else lambda r, w, t: ck.violate(r, w, t, "C03.collapse:%s:%s:copy" % (kind, creator.split("(")[0])))("C03.collapse", f.loc(x), "collapse_edge: the %s transfer is a copy (found %s)" % (kind, nm))
 
 
 def bool_storage_swap_rule(ck, fb):
